@@ -79,6 +79,22 @@ def gen_schema(r, size=1.0):
             if f["kind"] in ("scalar", "string", "enum") and not f.get("deprecated") and f.get("type") not in ("bool", "float", "double") and r.random() < 0.15:
                 f["key"] = True
             t["fields"].append(f)
+    # sorted vectors (scalar, string, tables with a key): what the generated recursive sorter walks
+    keyed = {t["name"] for t in S["tables"] if any(f.get("key") for f in t["fields"])}
+    for t in S["tables"]:
+        for f in t["fields"]:
+            if f.get("deprecated") or f.get("nested"): continue
+            if f["kind"] in ("vec_scalar", "vec_string") and r.random() < 0.25: f["sorted"] = True
+            if f["kind"] == "vec_table" and f["type"] in keyed and r.random() < 0.6: f["sorted"] = True
+    # explicit ids: assigned in list order (a union takes two, its type field first), the text order is a permutation of it
+    for t in S["tables"]:
+        if t["fields"] and r.random() < 0.25:
+            nid = 0
+            for f in t["fields"]:
+                nid += 1 if f["kind"] in ("union", "vec_union") else 0
+                f["id"] = nid; nid += 1
+            order = list(range(len(t["fields"]))); r.shuffle(order)
+            t["order"] = order
     S["root"] = S["tables"][0]["name"]
     return S
 
@@ -102,12 +118,13 @@ def render(S):
         out.append("union %s { %s }" % (u["name"], ", ".join(ms)))
     for t in S["tables"]:
         fs = []
-        for f in t["fields"]:
+        for f in ([t["fields"][i] for i in t["order"]] if t.get("order") else t["fields"]):
             k = f["kind"]
             ty = {"scalar": f.get("type"), "string": "string", "enum": f.get("type"), "struct": f.get("type"), "table": f.get("type"),
                   "vec_scalar": "[%s]" % f.get("type"), "vec_string": "[string]", "vec_struct": "[%s]" % f.get("type"),
                   "vec_table": "[%s]" % f.get("type"), "union": f.get("type"), "vec_union": "[%s]" % f.get("type")}[k]
-            attrs = [a for a in ("required", "deprecated", "key") if f.get(a)]
+            attrs = [a for a in ("required", "deprecated", "key", "sorted") if f.get(a)]
+            if "id" in f: attrs.append("id: %d" % f["id"])
             if f.get("nested"): attrs.append('nested_flatbuffer: "%s"' % f["nested"])
             d = " = %s" % f["default"] if "default" in f else ""
             fs.append("%s:%s%s%s;" % (f["name"], ty, d, " (%s)" % ", ".join(attrs) if attrs else ""))
